@@ -500,7 +500,7 @@ def run(ctx):
         n3 = exhaustive(ctx, res, drv, 3, [(1, 1, 0)], cap=2500)
         res.notes.append(f"exhaustive: {n2} histories of <= 2 edits on <= 3 registers from {len(SMALL_INITS)} initial circuits; {n3} histories of <= 3 edits from (1,1,0) (capped)")
         plan = [((rng.randrange(1, 3), rng.randrange(0, 3), rng.randrange(0, 2)), 60, 1) for _ in range(60)] + \
-               [((rng.randrange(1, 4), rng.randrange(1, 4), rng.randrange(0, 3)), 300, 5) for _ in range(10)]
+               [((rng.randrange(1, 4), rng.randrange(1, 4), rng.randrange(0, 3)), 300, 5) for _ in range(8)]
     else:
         n3 = exhaustive(ctx, res, drv, 3, SMALL_INITS)
         res.exhaustive = True
